@@ -168,6 +168,18 @@ def drive(tier):
                   {"k": "ret", "ver": o.witver, "prog": b2l(o)} if k == "ret" else
                   ({"k": "none"} if type(o).__name__ in ("Bech32Error", "Bech32ChecksumError") else dict(exc_info(o), k="exc")))
     bitcoin.SelectParams("mainnet")
+    # several objects alive at once, looked at only after all were created (no state shared between objects)
+    live = []
+    for ver, n in ((0, 20), (1, 10), (0, 32), (16, 2), (2, 40), (0, 20)):
+        prog = gen.rbytes(r, n)
+        t = sa.encode("bc", ver, list(prog))
+        k, o = call(CBech32Data, t)
+        if k == "ret":
+            live.append((t, o))
+    for t, o in live:
+        k, back = call(str, o)
+        R.add("b32.decode", {"hrp": text("bc"), "s": text(t), "via": "CBech32Data-inspected-later"},
+              {"k": "ret", "ver": int(o.witver), "prog": b2l(o)} if k == "ret" and back == t else {"k": "none"})
     # BIP173 test vectors (valid / invalid)
     vec = ["BC1QW508D6QEJXTDG4Y5R3ZARVARY0C5XW7KV8F3T4", "tb1qrp33g0q5c5txsp9arysrx4k6zdkfs4nce4xj0gdcccefvpysxf3q0sl5k7",
            "bc1pw508d6qejxtdg4y5r3zarvary0c5xw7kw508d6qejxtdg4y5r3zarvary0c5xw7k7grplx", "BC1SW50QA3JX3S", "bc1zw508d6qejxtdg4y5r3zarvaryvg6kdaj",
